@@ -9,5 +9,7 @@ CONSTANTS
   Recheck = TRUE
   Post = "forget"
   Record = "accept"
+  Breaks = FALSE
+  Blind = FALSE
   Export = TRUE
 INVARIANTS EmitHazard
